@@ -128,6 +128,15 @@ func (x *Exec) newObject(name string, array bool, elem types.Type, pre bool) *Ob
 
 func (x *Exec) typeTag(t types.Type) *Term {
 	s := types.TypeString(t, nil)
+	if b, ok := t.(*types.Basic); ok {
+		// byte/rune are aliases of uint8/int32
+		switch b.Kind() {
+		case types.Uint8:
+			s = "uint8"
+		case types.Int32:
+			s = "int32"
+		}
+	}
 	if v, ok := x.typeTags[s]; ok {
 		return x.tb.Intc(v)
 	}
@@ -344,6 +353,20 @@ func (x *Exec) addObl(st *State, name, kind string, goal *Term, pos token.Pos, l
 	}
 	if goal.IsTrue() {
 		o.Trivial = true
+	} else if sks := x.tb.Skolems(goal); len(sks) > 0 && len(sks) <= 6 {
+		// instantiation aid: consequences of quantified hypotheses at the goal's skolem constants
+		budget := 48
+		for _, a := range st.pc {
+			if budget <= 0 {
+				break
+			}
+			if !a.hasForall() {
+				continue
+			}
+			ins := x.tb.InstantiateForalls(a, sks, 2, budget)
+			budget -= len(ins)
+			o.Asserts = append(o.Asserts, ins...)
+		}
 	}
 	x.obls = append(x.obls, o)
 	return o
